@@ -13,6 +13,15 @@ Case (JSON):
                                  src just before src's op <at>: 1 src does assign(new_raw(Thread), current(Thread)) +
                                  call, joins after its ops; 2 src does copy(current(Thread)) + call + join; 3 main does
                                  assign(new_raw(Thread), src's Thread) + call while src waits; 4 main does copy(...)
+                                 5 src makes new(Thread, fn), hands over the gifts of j, collects, call + join
+   "gifts": [[j, ngc, churn, [[key, id], ...]], ...]   optional: before workload j is started its parent (main; the
+                                 worker src for a mode-5 line; main in every alone-run) stores fresh collector-managed
+                                 objects referenced from nowhere else in the thread-local storage of the not-yet-started
+                                 managed Thread object (set(thread, "g<key>", obj)), clears its stack, forces ngc
+                                 collections and allocates churn garbage objects, then call()s; the child checks each
+                                 gift before and after its workload and mixes the ids into its digest
+   "restarts": [[j, i], ...]     optional: workload j runs after everything else was joined, by call() on the finished
+                                 Thread object of workload i (gifts handed over in between)
    "rep": n}                     optional: run the whole case n times, fail if any run fails (stress cases)
 
 The op language is documented in harness/ex_thr.c (do_op).  The executor first runs every workload alone
@@ -44,16 +53,20 @@ RULE = ("case = T in 2..16 workloads (thread i runs w[i mod len(w)], so some cas
         "in about a third of the cases 1..3 workloads run in Thread objects cloned from a running worker (by the worker "
         "itself with assign into new_raw(Thread) and running on beside it, or with copy(current(Thread)) + call + join; "
         "or by the main thread with assign/copy of the worker's Thread object while the worker waits) and are judged "
-        "like every other workload. "
+        "like every other workload; in about a third of the cases 1..3 workloads are started on a collector-managed "
+        "Thread object into whose thread-local storage the parent (main, or a worker that then joins at once) has put "
+        "1..4 fresh objects it no longer references, followed by forced collections and/or allocation churn in the "
+        "parent before call(); some of them on a finished Thread object that is started again; the child must find "
+        "every such object alive and identical before and after its workload (ids are part of its digest). "
         "Each workload is first run alone; per-thread result digest and exception-trace digest must be equal in the "
         "concurrent run; ledger: no finalisation on a thread other than the allocator, none twice, nothing reachable "
         "from a slot finalised; thread-local values read back are the thread's own; exception depth 0 after every op; "
         "counter == number of increments and flag never seen set; joiner sees every write and the done mark. "
         "non-trivial = measured (global op counter stamped at every op): >= 2 workloads whose [first op, last op] "
         "intervals intersect AND >= 1 collection (forced, or a finaliser run by a threshold collection) or throw whose "
-        "stamp lies strictly inside another workload's interval. distinct = distinct case JSON. extra phase: 36 fixed "
-        "stress programs (lock / exception / churn / thread-local / join / clone heavy; T in 2,4,8,16; both builds), "
-        "each run 3 times.")
+        "stamp lies strictly inside another workload's interval. distinct = distinct case JSON. extra phase: 42 fixed "
+        "stress programs (gift / clone / lock / exception / churn / thread-local / join heavy; T in 2,4,8,16; both "
+        "builds), each run 3 times.")
 
 ASSUMPTIONS = [
     "every workload is bounded (no waits except the start signal given by main after all call()s returned, and "
@@ -74,6 +87,12 @@ ASSUMPTIONS = [
     "thread only copies a worker's Thread object while that worker waits (an unsynchronised read of a table that is "
     "being rehashed would be the known finding again); a clone made with copy() is collector-managed, so the copying "
     "thread does not allocate while such a clone runs (self-copy: call+join at once; main copy: main=0, gcthr=0, once)",
+    "gifts: values are stored in another Thread object's thread-local storage only while that thread is not running "
+    "(before call(), or after join() for a restart), and the parent does not allocate while the managed Thread object "
+    "runs (main-parent gifts and restarts only with main=0 and without a main copy() clone; a worker parent joins at "
+    "once) - otherwise the known finding gc-marks-running-thread-tls would be hit; clearing the parent's stack of "
+    "stale references is best effort (a stale register/stack word can keep a gift alive by accident: that can only "
+    "hide a defect, never raise an alarm)",
 ]
 
 NCONT, NOBJ, NKEY = 6, 4, 6
@@ -270,8 +289,44 @@ def _case(draw, tier):
                 mode = 3
             used4 = used4 or mode == 4
             clones.append([j, mode, src, draw(st.integers(0, nops))])
+    gifts, restarts = [], []
+    taken = set(c[0] for c in clones)
+
+    def gift(j):
+        keys = draw(st.lists(st.integers(0, 9), min_size=1, max_size=4, unique=True))
+        ngc = draw(st.integers(0, 2))
+        churn = draw(st.sampled_from([0, 40, 300, 900]))
+        if ngc == 0 and churn == 0:
+            ngc = 1
+        return [j, ngc, churn, [[k, draw(st.integers(1, 999))] for k in keys]]
+
+    if draw(st.integers(0, 2)) == 0:
+        free = [i for i in range(first, T) if i not in taken and not any(c[2] == i for c in clones)]
+        srcs = [i for i in range(first, T) if i not in taken]
+        # (a) a worker is the parent (mode 5): allowed in every configuration
+        if len(free) >= 2 and draw(st.booleans()):
+            j = free.pop()
+            src = draw(st.sampled_from([i for i in srcs if i != j]))
+            nops = len(w[src % len(w)]["ops"])
+            clones.append([j, 5, src, draw(st.integers(0, nops))])
+            taken.add(j)
+            gifts.append(gift(j))
+        # (b) main is the parent: main must stay idle while managed Thread objects run
+        if not main and not any(c[1] == 4 for c in clones):
+            normal = [i for i in range(T) if i not in taken]
+            for j in draw(st.lists(st.sampled_from(normal), max_size=3, unique=True)) if normal else []:
+                gifts.append(gift(j))
+            # (c) restart of a finished Thread object, with gifts
+            cand = [i for i in range(T) if i not in taken and not any(c[2] == i for c in clones)]
+            if len(cand) >= 2 and draw(st.booleans()):
+                j = cand[-1]
+                i = draw(st.sampled_from(cand[:-1]))
+                restarts.append([j, i])
+                if not any(g[0] == j for g in gifts):
+                    gifts.append(gift(j))
     return {"cfg": draw(st.sampled_from(["asan", "plain"])), "T": T, "main": main, "gcthr": gcthr,
-            "barrier": draw(st.sampled_from([0, 1, 1, 1])), "nmutex": nmutex, "w": w, "joins": jl, "clones": clones}
+            "barrier": draw(st.sampled_from([0, 1, 1, 1])), "nmutex": nmutex, "w": w, "joins": jl, "clones": clones,
+            "gifts": gifts, "restarts": restarts}
 
 
 def strategy(tier):
@@ -282,7 +337,7 @@ def SAMPLE(case):
     return {"cfg": case["cfg"], "T": case["T"], "main": case["main"], "gcthr": case["gcthr"], "barrier": case["barrier"],
             "nmutex": case["nmutex"], "workloads": len(case["w"]), "ops_per_workload": [len(x["ops"]) for x in case["w"]],
             "first_ops": case["w"][0]["ops"][:6], "yields": case["w"][0]["ys"][:4], "joins": case["joins"],
-            "clones": case.get("clones", [])}
+            "clones": case.get("clones", []), "gifts": case.get("gifts", []), "restarts": case.get("restarts", [])}
 
 
 # ---- running -----------------------------------------------------------------------------------
@@ -301,6 +356,10 @@ def encode(case):
         lines.append("j " + " ".join(str(x) for x in j))
     for c in case.get("clones", []):
         lines.append("s " + " ".join(str(x) for x in c))
+    for (j, ngc, churn, ent) in case.get("gifts", []):
+        lines.append("g %d %d %d %d %s" % (j, ngc, churn, len(ent), " ".join("%d %d" % (k, i) for k, i in ent)))
+    for (j, i) in case.get("restarts", []):
+        lines.append("r %d %d" % (j, i))
     return "\n".join(lines)
 
 
@@ -316,6 +375,10 @@ def _judge(case, obs):
         ev.append("thread-objects-collected")
     for c in case.get("clones", []):
         ev.append("clone-mode-%d" % c[1])
+    if case.get("gifts"):
+        ev.append("gifts-in-thread-local-storage")
+    if case.get("restarts"):
+        ev.append("finished-thread-started-again")
     if not obs:
         return "executor produced no output", False, ev
     last = obs[-1]
@@ -452,6 +515,18 @@ def _stress(kind, T, cfg):
             ops += ["ts %d %d" % (r % NKEY, r), "tg %d" % (r % NKEY), "ts %d %d" % ((r + 1) % NKEY, 100 + r), "tg %d" % ((r + 1) % NKEY),
                     "tr %d" % (r % NKEY), "tg %d" % (r % NKEY), "ch 20"]
         w = [{"ops": ops, "ys": [[2, 0, 1], [10, 1, 800], [33, 0, 2]]}]
+    elif kind == "gift":
+        # every workload gets 3 gifts; parents: main (even workloads), the preceding worker (odd workloads, mode 5);
+        # the last workload runs on the finished Thread object of workload 0
+        ops = ["ob 0 8", "ch 120"]
+        for r in range(6):
+            ops += ["ow 0", "ch 150", "gc" if r % 2 else "ch 30", "ts 1 %d" % r, "tg 1"]
+        w = [{"ops": ops, "ys": [[4, 0, 1], [11, 1, 700]]}]
+        gifts = [[j, 1 + j % 2, [0, 400, 1200][j % 3], [[(j + q) % 10, 100 * j + q + 1] for q in range(3)]] for j in range(T)]
+        clones = [[j, 5, j - 1, 2 + j % 7] for j in range(1, T - 1, 2)]
+        restarts = [[T - 1, 0]]
+        return {"cfg": cfg, "T": T, "main": 0, "gcthr": 0, "barrier": 1, "nmutex": 1, "w": w, "joins": [], "clones": clones,
+                "gifts": gifts, "restarts": restarts, "rep": 3}
     elif kind == "clone":
         # worker 0 keeps a chain alive and churns; the other workloads run in clones of it, keep chains alive
         # and keep walking them while worker 0 (and they) collect
@@ -486,7 +561,7 @@ def extra_phase(ctx, tier, stats, sample_fn):
     n = 0
     if os.environ.get("VERIF_C13_NOSTRESS"):          # sensitivity experiments: generated cases only
         return {"fails": [], "extra": {"stress_programs": 0}}
-    for kind in ("clone", "lock", "exc", "churn", "tls", "join"):
+    for kind in ("gift", "clone", "lock", "exc", "churn", "tls", "join"):
         for (T, cfg) in STRESS_SHAPES:
             case = _stress(kind, T, cfg)
             res = run_case(ctx, case)
